@@ -59,12 +59,21 @@ def binop(ex, st: State, op, a: V, b: V, node):
     if a.kind in NUM and b.kind in NUM:
         if a.kind == 'real' or b.kind == 'real' or t is ast.Div:
             x, y = to_real(a), to_real(b)
+
+            def fl(r):
+                # IEEE-754 double, round-to-nearest: fl(x op y) = (x op y)(1 + d), |d| <= 2^-53 (no under/overflow)
+                if getattr(ex.ctx, 'float_model', 'real') != 'ieee':
+                    return r
+                d = fresh(RealS, 'fl_delta')
+                u = z3.RealVal(1) / z3.RealVal(2 ** 53)
+                st.assume(z3.And(d >= -u, d <= u))
+                return r * (1 + d)
             if t is ast.Add:
-                return [(st, vreal(x + y))]
+                return [(st, vreal(fl(x + y)))]
             if t is ast.Sub:
-                return [(st, vreal(x - y))]
+                return [(st, vreal(fl(x - y)))]
             if t is ast.Mult:
-                return [(st, vreal(x * y))]
+                return [(st, vreal(fl(x * y)))]
             if t is ast.Div:
                 outs = []
                 z = st.fork()
@@ -72,7 +81,7 @@ def binop(ex, st: State, op, a: V, b: V, node):
                 if ex.feasible(z):
                     outs.append((z, Raise(ex.mk_exc('ZeroDivisionError', node))))
                 st.assume(y != 0)
-                outs.append((st, vreal(x / y)))
+                outs.append((st, vreal(fl(x / y))))
                 return outs
             raise Unsupported(f'real operator {t.__name__}')
         x, y = to_int(a), to_int(b)
